@@ -294,6 +294,11 @@ pub fn value_for(stamp: u64, key_idx: u8, class: u8, cfg: &Cfg) -> Vec<u8> {
         0 => 8,
         1 => 40_000,
         2 => (cfg.memtable.min(1 << 20)) + 1000,
+        // the boundaries of the varint length coding (batch records, block entries)
+        5 => 127,
+        6 => 128,
+        7 => 16383,
+        8 => 16384,
         _ => 8,
     };
     if class == 4 {
